@@ -16,36 +16,32 @@ DEPTH = ["p1", "p2", "p3", "p4", "p5", "p6"]
 
 
 def walk(root):
-    res = set()
+    """path -> file content (None for directories)"""
+    res = {}
     for d, dirs, files in os.walk(root):
         for x in dirs:
-            res.add(os.path.join(d, x) + "/")
+            res[os.path.join(d, x) + "/"] = None
         for x in files:
-            res.add(os.path.join(d, x))
+            p = os.path.join(d, x)
+            try:
+                res[p] = open(p, "rb").read()
+            except OSError:
+                res[p] = b"<unreadable>"
     return res
 
 
-def run_case(case):
-    root = os.path.join(base, "case")
-    shutil.rmtree(root, ignore_errors=True)
-    cwd = os.path.join(root, *DEPTH, "w")
-    os.makedirs(os.path.join(cwd, "out"))
-    os.makedirs(os.path.join(cwd, "out2"))
-    os.makedirs(os.path.join(cwd, "ou"))
-    names = [n.replace("$ROOT", root).replace("$CWD", cwd) for n in case["names"]]
-    dst = case["dst"].replace("$ROOT", root).replace("$CWD", cwd)
+def run_step(root, cwd, stepno, dst, names):
     buf = io.BytesIO()
     with zipfile.ZipFile(buf, "w") as z:
         for i, n in enumerate(names):
             zi = zipfile.ZipInfo(n)
-            z.writestr(zi, b"" if n.endswith("/") else b"data%d" % i)
+            z.writestr(zi, b"" if n.endswith("/") else b"step%d-data%d" % (stepno, i))
     zf = zipfile.ZipFile(io.BytesIO(buf.getvalue()))
     read_names = [zi.filename for zi in zf.infolist()]
     before = walk(root)
     ops = []
     real_makedirs = os.makedirs
     real_open = open
-
     depth = [0]
 
     def rec_makedirs(p, *a, **k):
@@ -82,12 +78,28 @@ def run_case(case):
         del nuwiki.open
         os.chdir(base)
     after = walk(root)
-    new = sorted(after - before)
-    gone = sorted(before - after)
+    changed = sorted(p for p in after if p not in before or before[p] != after[p])
+    gone = sorted(p for p in before if p not in after)
     D = os.path.realpath(os.path.join(cwd, dst))
-    outside = [p for p in new if not (os.path.realpath(p.rstrip("/")) + "/").startswith(D + "/")] + gone
-    return {"id": case["id"], "cwd": cwd, "dst": dst, "names": names, "read_names": read_names, "ops": ops,
-            "outcome": outcome, "new": new, "outside": outside, "D": D}
+    outside = [p for p in changed if not (os.path.realpath(p.rstrip("/")) + "/").startswith(D + "/")] + gone
+    return {"dst": dst, "names": names, "read_names": read_names, "ops": ops, "outcome": outcome,
+            "new": changed, "outside": outside, "D": D}
+
+
+def run_case(case):
+    root = os.path.join(base, "case")
+    shutil.rmtree(root, ignore_errors=True)
+    cwd = os.path.join(root, *DEPTH, "w")
+    os.makedirs(os.path.join(cwd, "out"))
+    os.makedirs(os.path.join(cwd, "out2"))
+    os.makedirs(os.path.join(cwd, "ou"))
+    steps = case.get("steps") or [{"dst": case["dst"], "names": case["names"]}]
+    res = []
+    for k, st in enumerate(steps):
+        names = [n.replace("$ROOT", root).replace("$CWD", cwd) for n in st["names"]]
+        dst = st["dst"].replace("$ROOT", root).replace("$CWD", cwd)
+        res.append(run_step(root, cwd, k, dst, names))
+    return {"id": case["id"], "cwd": cwd, "steps": res}
 
 
 for line in sys.stdin:
